@@ -15,6 +15,7 @@ import (
 	tikverr "github.com/tikv/client-go/v2/error"
 	"github.com/tikv/client-go/v2/kv"
 	"github.com/tikv/client-go/v2/oracle"
+	"github.com/tikv/client-go/v2/tikv"
 	"github.com/tikv/client-go/v2/txnkv/transaction"
 
 	"verif/e2e/uni"
@@ -30,7 +31,7 @@ const (
 	OpIter
 	OpIterRev
 	OpSet
-	OpInsert       // set with presume-key-not-exists
+	OpInsert // set with presume-key-not-exists
 	OpDelete
 	OpInsertDelete // insert, then delete inside the transaction
 	OpLock         // LockKeys (pessimistic: real lock; optimistic: lock-only mutation)
@@ -118,11 +119,13 @@ type Read struct {
 	Vals            map[string]string // key -> value for keys found
 	Order           []string          // scans: keys in the order returned
 	Err             string
-	Locking         bool   // value returned by LockKeys(ReturnValues) / existence check
-	ForUpdateTS     uint64 // for locking reads
+	Locking         bool            // value returned by LockKeys(ReturnValues) / existence check
+	ForUpdateTS     uint64          // for locking reads
 	Exists          map[string]bool // CheckExistence results
 	// Overlay is a copy of the model buffer at the time of the read
 	Overlay map[string]BufEntry
+	// Diag: diagnostics only (never judged)
+	Diag map[string]any
 }
 
 // ErrClass classifies errors of Commit and of steps.
@@ -192,15 +195,15 @@ type TxnRec struct {
 	Buf      map[string]BufEntry // model of the buffer at commit time
 	Failed   []StepRec
 	// end of transaction
-	Ended         bool
-	EndKind       string // commit | rollback | abandoned(killed)
-	EndCallSeq    int64
-	EndRetSeq     int64 // 0 if the call never returned to the driver (client killed)
-	CommitErr     string
-	CommitClass   ErrClass
-	CommitTS      uint64 // KVTxn.CommitTS() after a nil Commit
+	Ended          bool
+	EndKind        string // commit | rollback | abandoned(killed)
+	EndCallSeq     int64
+	EndRetSeq      int64 // 0 if the call never returned to the driver (client killed)
+	CommitErr      string
+	CommitClass    ErrClass
+	CommitTS       uint64 // KVTxn.CommitTS() after a nil Commit
 	IsAsync, Is1PC bool
-	NKeys         int
+	NKeys          int
 }
 
 // Runner executes programs on a client store.
@@ -212,6 +215,8 @@ type Runner struct {
 	LockWaitMS int64
 	// PessRetries is how often a pessimistic statement is retried on a write conflict
 	PessRetries int
+	// NoLockBeforeWrite: pessimistic transactions write keys without locking them first
+	NoLockBeforeWrite bool
 	// BeforeCommit, if set, runs right before Commit/Rollback is called
 	BeforeCommit func(rec *TxnRec, txn *transaction.KVTxn)
 }
@@ -272,7 +277,7 @@ func (r *Runner) Run(id int, spec Spec) *TxnRec {
 			v, err := txn.Get(ctx, []byte(op.Keys[0]))
 			rd.RetSeq = log.Next()
 			if err != nil && !tikverr.IsErrNotFound(err) {
-				rd.Err = err.Error()
+				rd.Err = fmt.Sprintf("%T: %v", err, err)
 			} else if err == nil {
 				rd.Vals[op.Keys[0]] = string(v.Value)
 			}
@@ -283,7 +288,7 @@ func (r *Runner) Run(id int, spec Spec) *TxnRec {
 			m, err := txn.BatchGet(ctx, keysOf(op.Keys))
 			rd.RetSeq = log.Next()
 			if err != nil {
-				rd.Err = err.Error()
+				rd.Err = fmt.Sprintf("%T: %v", err, err)
 			} else {
 				for k, v := range m {
 					rd.Vals[k] = string(v.Value)
@@ -292,6 +297,7 @@ func (r *Runner) Run(id int, spec Spec) *TxnRec {
 			rec.Reads = append(rec.Reads, rd)
 		case OpIter, OpIterRev:
 			rd := Read{Kind: op.Kind, Lo: op.Lo, Hi: op.Hi, Vals: map[string]string{}, Overlay: copyBuf(rec.Buf)}
+			t0 := time.Now()
 			rd.CallSeq = log.Next()
 			var it interface {
 				Valid() bool
@@ -327,10 +333,58 @@ func (r *Runner) Run(id int, spec Spec) *TxnRec {
 			}
 			rd.RetSeq = log.Next()
 			if err != nil {
-				rd.Err = err.Error()
+				rd.Err = fmt.Sprintf("%T: %v", err, err)
+			}
+			if err == nil && len(rd.Order) == 0 {
+				// diagnostics: repeat an empty scan once and keep what the repetition saw
+				var again []string
+				var it2 tikv.Iterator
+				var e2 error
+				if op.Kind == OpIter {
+					it2, e2 = txn.Iter(bnd(op.Lo), bnd(op.Hi))
+				} else {
+					it2, e2 = txn.IterReverse(bnd(op.Hi), bnd(op.Lo))
+				}
+				for e2 == nil && it2.Valid() && len(again) < 100 {
+					again = append(again, string(it2.Key()))
+					e2 = it2.Next()
+				}
+				rd.Diag = map[string]any{"repeat_result": again, "repeat_err": fmt.Sprint(e2), "buffer_len": txn.Len(), "took": time.Since(t0).String()}
 			}
 			rec.Reads = append(rec.Reads, rd)
-		case OpSet:
+		case OpSet, OpDelete:
+			// a pessimistic transaction locks every key it writes first (as a SQL layer does for row keys);
+			// unlocked writes of pessimistic transactions are generated only when LockBeforeWrite is off
+			if spec.Pessimistic && !r.NoLockBeforeWrite {
+				k := op.Keys[0]
+				if e, ok := rec.Buf[k]; !ok || !e.PessLock {
+					fu, lerr := r.lock(ctx, txn, rec, Op{Kind: OpLock, Keys: []string{k}, NoWait: op.NoWait}, nil)
+					if lerr != nil {
+						cl := Classify(lerr)
+						rec.Failed = append(rec.Failed, StepRec{op.String(), cl, lerr.Error()})
+						if cl == EDeadlock || cl == EKilled || cl == EOther {
+							mustRollback = true
+						}
+						break
+					}
+					e.PessLock, e.LockForUpdateTS = true, fu
+					if !ok {
+						e.Kind = BufLockOnly
+					}
+					rec.Buf[k] = e
+				}
+			}
+			if op.Kind == OpDelete {
+				k := op.Keys[0]
+				if err := txn.Delete([]byte(k)); err != nil {
+					rec.Failed = append(rec.Failed, StepRec{op.String(), Classify(err), err.Error()})
+					continue
+				}
+				e := rec.Buf[k]
+				e.Kind, e.Val = BufDel, ""
+				rec.Buf[k] = e
+				break
+			}
 			k := op.Keys[0]
 			val := r.val(rec)
 			if err := txn.Set([]byte(k), []byte(val)); err != nil {
@@ -339,15 +393,6 @@ func (r *Runner) Run(id int, spec Spec) *TxnRec {
 			}
 			e := rec.Buf[k]
 			e.Kind, e.Val = BufPut, val
-			rec.Buf[k] = e
-		case OpDelete:
-			k := op.Keys[0]
-			if err := txn.Delete([]byte(k)); err != nil {
-				rec.Failed = append(rec.Failed, StepRec{op.String(), Classify(err), err.Error()})
-				continue
-			}
-			e := rec.Buf[k]
-			e.Kind, e.Val = BufDel, ""
 			rec.Buf[k] = e
 		case OpInsert, OpInsertDelete:
 			k := op.Keys[0]
@@ -372,16 +417,28 @@ func (r *Runner) Run(id int, spec Spec) *TxnRec {
 				rec.Buf[k] = e
 			} else {
 				// pessimistic insert as TiDB does it: buffer the write inside a staging level,
-				// lock the key (the lock request carries "should not exist"), undo on failure
-				h := mb.Staging()
-				if err := mb.SetWithFlags([]byte(k), []byte(val), kv.SetPresumeKeyNotExists, kv.SetNewlyInserted); err != nil {
+				// lock the key (the lock request carries "should not exist"), undo on failure.
+				// A write conflict makes the SQL layer re-execute the statement with a newer
+				// for-update ts: the flags are set again (a failed lock call clears them).
+				var h int
+				var fu uint64
+				var lerr error
+				for attempt := 0; attempt < 4; attempt++ {
+					h = mb.Staging()
+					if lerr = mb.SetWithFlags([]byte(k), []byte(val), kv.SetPresumeKeyNotExists, kv.SetNewlyInserted); lerr != nil {
+						break
+					}
+					fu, lerr = r.lockOnce(ctx, txn, rec, Op{Kind: OpLock, Keys: []string{k}}, nil)
+					if lerr == nil || Classify(lerr) != EWriteConflict {
+						break
+					}
 					mb.Cleanup(h)
-					rec.Failed = append(rec.Failed, StepRec{op.String(), Classify(err), err.Error()})
-					continue
+					h = 0
 				}
-				fu, lerr := r.lock(ctx, txn, rec, Op{Kind: OpLock, Keys: []string{k}}, nil)
 				if lerr != nil {
-					mb.Cleanup(h)
+					if h != 0 {
+						mb.Cleanup(h)
+					}
 					cl := Classify(lerr)
 					rec.Failed = append(rec.Failed, StepRec{op.String(), cl, lerr.Error()})
 					if cl == EDeadlock || cl == EKilled || cl == EOther {
@@ -415,7 +472,7 @@ func (r *Runner) Run(id int, spec Spec) *TxnRec {
 			rd.ForUpdateTS = fu
 			if err != nil {
 				cl := Classify(err)
-				rd.Err = err.Error()
+				rd.Err = fmt.Sprintf("%T: %v", err, err)
 				rec.Failed = append(rec.Failed, StepRec{op.String(), cl, err.Error()})
 				if cl == EDeadlock || cl == EKilled || cl == EOther {
 					mustRollback = true
@@ -508,6 +565,18 @@ func (r *Runner) lock(ctx context.Context, txn *transaction.KVTxn, rec *TxnRec, 
 	}
 	var lastErr error
 	for attempt := 0; attempt <= retries; attempt++ {
+		fu, err := r.lockOnce(ctx, txn, rec, op, rd)
+		if err == nil || Classify(err) != EWriteConflict {
+			return fu, err
+		}
+		lastErr = err
+	}
+	return 0, lastErr
+}
+
+// lockOnce is one pessimistic LockKeys call with a fresh for-update ts.
+func (r *Runner) lockOnce(ctx context.Context, txn *transaction.KVTxn, rec *TxnRec, op Op, rd *Read) (uint64, error) {
+	{
 		fu, err := r.C.Store.CurrentTimestamp(oracle.GlobalTxnScope)
 		if err != nil {
 			return 0, err
@@ -552,12 +621,8 @@ func (r *Runner) lock(ctx context.Context, txn *transaction.KVTxn, rec *TxnRec, 
 			}
 			return fu, nil
 		}
-		lastErr = err
-		if Classify(err) != EWriteConflict {
-			return fu, err
-		}
+		return fu, err
 	}
-	return 0, lastErr
 }
 
 // ---------------------------------------------------------------- generator
@@ -569,12 +634,13 @@ type Gen struct {
 	// probabilities / switches
 	Pessimistic, Async, OnePC bool
 	MaxOps                    int
-	// BoundedRevUpper: give every reverse scan an explicit upper bound (unistore answers a
-	// reverse scan whose upper bound is empty with nothing; the mock is trusted as given)
-	BoundedRevUpper bool
-	NoScans                   bool
-	NoLocks                   bool
-	RollbackPct               int
+	// NoRevScan: generate no reverse scans.  unistore (third-party mock, trusted as given) answers
+	// reverse scans wrongly: it ignores the read version (returns the newest version) and returns
+	// nothing when the upper bound is empty; reverse scans are covered on mocktikv.
+	NoRevScan   bool
+	NoScans     bool
+	NoLocks     bool
+	RollbackPct int
 }
 
 func (g *Gen) key() string { return g.Keys[g.Rng.Intn(len(g.Keys))] }
@@ -633,10 +699,10 @@ func (g *Gen) Next() Spec {
 			op = Op{Kind: OpIter, Lo: lo, Hi: hi}
 		case x < 38 && !g.NoScans:
 			lo, hi := g.bounds()
-			if hi == "" && g.BoundedRevUpper {
-				hi = "z"
-			}
 			op = Op{Kind: OpIterRev, Lo: lo, Hi: hi}
+			if g.NoRevScan {
+				op.Kind = OpIter
+			}
 		case x < 62:
 			op = Op{Kind: OpSet, Keys: []string{g.key()}}
 		case x < 72:
